@@ -105,4 +105,65 @@ theorem parseInt64_agrees (r : Libc.StrRes) (hre : r.errno = .ERANGE ∨ r.errno
         simp [hv, he, this, eINVAL]
     · simp [hv]
 
+
+/-- `json_object_get_boolean` on a string node: true exactly when the string is not empty - whichever representation it is in
+(`lenField` is `len` for inline storage and `-len` for a separately allocated buffer) -/
+theorem getBoolean_string (jso lenField cty ci cb f : Int) (hj : jso ≠ 0) (s : Bytes)
+    (hl : lenField = (s.length : Int) ∨ lenField = -(s.length : Int)) :
+    ∃ out, Translated.json_object_get_boolean jso (typeString : Nat) lenField cty ci cb f = .ok out ∧
+      getBoolean (.str s) = .ok ⟨decide (out.ret ≠ 0), .keep, []⟩ ∧ (out.ret = 0 ∨ out.ret = 1) ∧ out.calls = [] := by
+  unfold Translated.json_object_get_boolean getBoolean
+  have h6 : ((typeString : Nat) : Int) = 6 := by decide
+  rw [h6, if_pos hj, if_neg (by omega), if_neg (by omega), if_neg (by omega), if_pos rfl]
+  by_cases hz : s.length = 0
+  · have : lenField = 0 := by rcases hl with h | h <;> omega
+    rw [if_neg (by omega)]
+    exact ⟨_, rfl, by simp [hz], by simp, rfl⟩
+  · have : lenField ≠ 0 := by rcases hl with h | h <;> omega
+    rw [if_pos this]
+    exact ⟨_, rfl, by simp [hz], by simp, rfl⟩
+
+/-- on an int node (either representation; the union as its 64-bit pattern) -/
+theorem getBoolean_int (jso ln cb f : Int) (hj : jso ≠ 0) (sgn : Bool) (v : Int) (hwf : (JVal.int sgn v).NumWF) :
+    ∃ out, Translated.json_object_get_boolean jso (typeInt : Nat) ln (tagOf sgn) (bitsOf v) cb f = .ok out ∧
+      getBoolean (.int sgn v) = .ok ⟨decide (out.ret ≠ 0), .keep, []⟩ ∧ out.calls = [] := by
+  unfold Translated.json_object_get_boolean getBoolean tagOf bitsOf
+  have h3 : ((typeInt : Nat) : Int) = 3 := by decide
+  simp only [JVal.NumWF, INT64_MIN, INT64_MAX, UINT64_MAX] at hwf
+  rw [h3, if_pos hj, if_neg (by omega), if_pos rfl]
+  cases sgn
+  · simp only [Bool.false_eq_true, if_false] at hwf ⊢
+    by_cases hz : v = 0
+    · resolve_ifs; exact ⟨_, rfl, by simp [hz], rfl⟩
+    · resolve_ifs; exact ⟨_, rfl, by simp [hz], rfl⟩
+  · simp only [if_true] at hwf ⊢
+    by_cases hz : v = 0
+    · resolve_ifs; exact ⟨_, rfl, by simp [hz], rfl⟩
+    · resolve_ifs; exact ⟨_, rfl, by simp [hz], rfl⟩
+
+/-- NULL, and nodes that are neither boolean, int, double nor string: false -/
+theorem getBoolean_other (jso ty ln cty ci cb f : Int)
+    (h : jso = 0 ∨ (ty ≠ (typeBoolean : Nat) ∧ ty ≠ (typeInt : Nat) ∧ ty ≠ (typeDouble : Nat) ∧ ty ≠ (typeString : Nat))) :
+    Translated.json_object_get_boolean jso ty ln cty ci cb f = .ok { ret := 0, calls := [] } := by
+  unfold Translated.json_object_get_boolean
+  have h1 : ((typeBoolean : Nat) : Int) = 1 := by decide
+  have h2 : ((typeDouble : Nat) : Int) = 2 := by decide
+  have h3 : ((typeInt : Nat) : Int) = 3 := by decide
+  have h6 : ((typeString : Nat) : Int) = 6 := by decide
+  rw [h1, h2, h3, h6] at h
+  rcases h with h | ⟨a, b, c, d⟩
+  · simp [h]
+  · by_cases hj : jso = 0
+    · simp [hj]
+    · simp [hj, a, b, c, d]
+
+/-- a boolean node: the stored value -/
+theorem getBoolean_bool (jso ln cty ci f : Int) (hj : jso ≠ 0) (b : Bool) :
+    Translated.json_object_get_boolean jso (typeBoolean : Nat) ln cty ci (if b then 1 else 0) f =
+      .ok { ret := if b then 1 else 0, calls := [] } := by
+  unfold Translated.json_object_get_boolean
+  have h1 : ((typeBoolean : Nat) : Int) = 1 := by decide
+  rw [h1, if_pos hj, if_pos rfl]
+  rfl
+
 end JsonC.TranslatedNum
